@@ -24,7 +24,7 @@ static void fail(const char* key, const std::string& msg) { ++nFail; if (perKey[
 struct Term { int kind; double a, b, e, s, p; };   // 0 affine a t; 1 quadratic a t + b t^2; 2 cubic a t + b t^2 + e t^3; 3 a exp(s t); 4 a sin(s t + p)
 static double g (const Term& T, double t) { switch (T.kind) { case 0: return T.a*t; case 1: return (T.b*t+T.a)*t; case 2: return ((T.e*t+T.b)*t+T.a)*t; case 3: return T.a*std::exp(T.s*t); default: return T.a*std::sin(T.s*t+T.p);} }
 static double g1(const Term& T, double t) { switch (T.kind) { case 0: return T.a; case 1: return 2*T.b*t+T.a; case 2: return (3*T.e*t+2*T.b)*t+T.a; case 3: return T.a*T.s*std::exp(T.s*t); default: return T.a*T.s*std::cos(T.s*t+T.p);} }
-static double mag(const Term& T, double t) { double x = std::fabs(t); switch (T.kind) { case 0: return std::fabs(T.a)*x; case 1: return (std::fabs(T.b)*x+std::fabs(T.a))*x; case 2: return ((std::fabs(T.e)*x+std::fabs(T.b))*x+std::fabs(T.a))*x; case 3: return std::fabs(T.a)*std::exp(std::fabs(T.s)*x); default: return std::fabs(T.a);} }
+static double mag(const Term& T, double t) { double x = std::fabs(t); switch (T.kind) { case 0: return std::fabs(T.a)*x; case 1: return (std::fabs(T.b)*x+std::fabs(T.a))*x; case 2: return ((std::fabs(T.e)*x+std::fabs(T.b))*x+std::fabs(T.a))*x; case 3: return std::fabs(T.a)*std::exp(std::fabs(T.s)*x); default: return std::fabs(T.a)*(1+std::fabs(T.s)*x);} }  /* sin: argument rounding eps*|s t| */
 static double sup2(const Term& T, double t, double h) { double x = std::fabs(t)+h; switch (T.kind) { case 0: return 0; case 1: return 2*std::fabs(T.b); case 2: return 2*std::fabs(T.b)+6*std::fabs(T.e)*x; case 3: return std::fabs(T.a)*T.s*T.s*std::exp(std::fabs(T.s)*x); default: return std::fabs(T.a)*T.s*T.s;} }
 static double sup3(const Term& T, double t, double h) { double x = std::fabs(t)+h; switch (T.kind) { case 0: case 1: return 0; case 2: return 6*std::fabs(T.e); case 3: return std::fabs(T.a*T.s*T.s*T.s)*std::exp(std::fabs(T.s)*x); default: return std::fabs(T.a*T.s*T.s*T.s);} }
 struct Fn { int n, m; std::vector<double> c; std::vector<Term> t;    // t[j*n+i]
@@ -37,53 +37,72 @@ struct GF : Differentiator::GradientFunction { const Fn& p; GF(const Fn& p, Real
 struct JF : Differentiator::JacobianFunction { const Fn& p; JF(const Fn& p, Real acc) : Differentiator::JacobianFunction(p.m, p.n, acc), p(p) {}
     int f(const Vector& y, Vector& fy) const override { std::vector<double> a(p.n); for (int i=0;i<p.n;++i) a[i]=y[i];
         fy.resize(p.m); for (int j=0;j<p.m;++j) fy[j] = p.eval(j, &a[0]); return 0; } };
+// one case: interface io, function F, point y0, method, fast/slow interface, accuracy given to the function (-1 = default)
+static void runCase(const std::string& io, const Fn& F, const std::vector<double>& y0, int kind, bool central, bool with, double accIn, const char* phase) {
+    const double acc = accIn < 0 ? (double)SignificantReal : accIn;
+    const double fac = central ? std::cbrt(acc) : std::sqrt(acc);
+    const Differentiator::Method meth = central ? Differentiator::CentralDifference : Differentiator::ForwardDifference;
+    SF sf(F, accIn); GF gf(F, accIn); JF jf(F, accIn);
+    const Differentiator::Function& fn = io[0]=='S' ? (const Differentiator::Function&)sf : io[0]=='G' ? (const Differentiator::Function&)gf : (const Differentiator::Function&)jf;
+    std::vector<double> est;
+    try {
+        Differentiator dd(fn);
+        Vector y0v(F.n); for (int i=0;i<F.n;++i) y0v[i]=y0[i];
+        Vector fy0v(F.m); for (int j=0;j<F.m;++j) fy0v[j]=F.eval(j,&y0[0]);
+        if (io[1]=='S') { Real d = NaN; if (with) dd.calcDerivative(y0[0], fy0v[0], d, meth); else d = dd.calcDerivative(y0[0], meth); est.push_back(d); }
+        else if (io[1]=='G') { Vector g; if (with) dd.calcGradient(y0v, fy0v[0], g, meth); else g = dd.calcGradient(y0v, meth); for (int i=0;i<g.size();++i) est.push_back(g[i]); }
+        else { Matrix J; if (with) dd.calcJacobian(y0v, fy0v, J, meth); else J = dd.calcJacobian(y0v, meth); for (int i=0;i<J.ncol();++i) for (int j=0;j<J.nrow();++j) est.push_back(J(j,i)); }
+    } catch (const std::exception& e) {
+        ++nEval; char b[300]; std::snprintf(b, 300, "%s n=%d m=%d threw: %.150s", io.c_str(), F.n, F.m, e.what()); for (char* q=b; *q; ++q) if (*q=='\n') *q=' ';
+        fail(io=="JG" && F.n>1 ? "calcGradient-on-JacobianFunction-throws" : "throws", b); return; }
+    if ((int)est.size() != F.n*F.m) { fail("shape", io + " wrong number of estimates"); return; }
+    int k = 0;
+    for (int i=0;i<F.n;++i) for (int j=0;j<F.m;++j, ++k) {
+        const Term& T = F.t[j*F.n+i]; ++nEval;
+        const double h = fac*std::max(std::fabs(y0[i]), 0.1);
+        const double trunc = central ? h*h/6*sup3(T,y0[i],h) : h/2*sup2(T,y0[i],h);
+        const double round = 8*(F.n+6)*2.3e-16*F.emag(j,&y0[0],h)/h;
+        const double truth = g1(T, y0[i]);
+        const double bound = 1.0001*trunc + round + 1e-300;
+        if (!(std::fabs(est[k]-truth) <= bound)) {
+            char b[500]; std::snprintf(b, 500, "%s %s %s %s kind=%d n=%d m=%d acc=%.3g entry(param %d, fn %d) y0_i=%.17g a=%.17g b=%.17g e=%.17g estimate=%.17g true=%.17g |err|=%.3g bound=%.3g (trunc %.3g + round %.3g)",
+                phase, io.c_str(), central?"central":"forward", with?"fast":"slow", kind, F.n, F.m, accIn, i, j, y0[i], T.a, T.b, T.e, est[k], truth, std::fabs(est[k]-truth), bound, trunc, round);
+            bool lost = false;     // the repaired defect (fix 9362a2af): the fast interface left the caller's variable untouched
+            if (io=="GS"||io=="JS") { try { Differentiator d2(fn); Real d = 12345.678; d2.calcDerivative(y0[0], F.eval(0,&y0[0]), d, meth); lost = (d == 12345.678); } catch (...) {} }
+            fail(lost ? "calcDerivative-on-vector-function-result-lost" : kind==0 ? "affine-not-exact" : (kind==1 && central) ? "quadratic-not-exact-central" : "error-bound", b); }
+    }
+}
+static Fn makeFn(int n, int m, int kind) {
+    Fn F; F.n = n; F.m = m;
+    for (int j=0;j<m;++j) { F.c.push_back(uni(-2,2)); for (int i=0;i<n;++i) { Term T; T.kind=kind; T.a=uni(-2,2); T.b=uni(-2,2); T.e=uni(-2,2); T.s=uni(0.2,1.5)*(u01()<0.5?-1:1); T.p=uni(-3,3); F.t.push_back(T); } }
+    return F;
+}
 int main(int argc, char** argv) {
     S = 88172645463325252ULL ^ (unsigned long long)std::atoll(argv[1]) * 2654435761ULL; for (int i=0;i<8;++i) u01();
     const int N = std::atoi(argv[2]);
     const char* ios[9] = {"SS","SG","SJ","GS","GG","GJ","JS","JG","JJ"};
+    // ---- stratified sweep (always): every interface x sign x magnitude decade 1e-8..1e9 (and 0, +-0.1) x method x
+    //      {affine, quadratic, cubic}; every parameter of the point has the chosen sign and magnitude
+    for (int q = 0; q < 9; ++q) for (int sg = -1; sg <= 1; sg += 2) for (int dec = -10; dec <= 9; ++dec)
+    for (int cen = 0; cen < 2; ++cen) for (int kind = 0; kind < 3; ++kind) {
+        const std::string io = ios[q];
+        const int n = (io[0]=='S' || io[1]=='S') ? 1 : irand(1,4), m = io=="JJ" ? irand(1,3) : 1;
+        Fn F = makeFn(n, m, kind); std::vector<double> y0(n);
+        for (int i=0;i<n;++i) y0[i] = dec == -10 ? 0.0 : dec == -9 ? sg*0.1 : sg*std::pow(10.0, dec + u01());      // dec -8..9: |y0| in [1e-8, 1e10)
+        for (int i=0;i<n;++i) if (std::fabs(y0[i]) > 1e9) y0[i] = sg*1e9;
+        runCase(io, F, y0, kind, cen==1, u01()<0.5, u01()<0.3 ? -1.0 : std::pow(10.0, uni(-12,-3)), "sweep");
+    }
+    // ---- random part
     for (int it = 0; it < N; ++it) {
         const std::string io = ios[irand(0,8)];
-        Fn F; F.n = (io[0]=='S' || io[1]=='S') ? 1 : irand(1,20); F.m = io=="JJ" ? irand(1,10) : 1;
+        const int n = (io[0]=='S' || io[1]=='S') ? 1 : irand(1,20), m = io=="JJ" ? irand(1,10) : 1;
         const int kind = irand(0,4);
-        for (int j=0;j<F.m;++j) { F.c.push_back(uni(-2,2)); for (int i=0;i<F.n;++i) { Term T; T.kind=kind; T.a=uni(-2,2); T.b=uni(-2,2); T.e=uni(-2,2); T.s=uni(0.2,1.5)*(u01()<0.5?-1:1); T.p=uni(-3,3); F.t.push_back(T); } }
-        std::vector<double> y0(F.n);
-        for (int i=0;i<F.n;++i) { double c = u01();
-            y0[i] = c<0.1 ? 0.0 : c<0.2 ? (u01()<0.5?0.1:-0.1) : c<0.3 ? std::pow(10.0, uni(-10,-2)) : c<0.8 ? uni(-3,3) : (u01()<0.5?-1:1)*std::pow(10.0, uni(1,8));
+        Fn F = makeFn(n, m, kind);
+        std::vector<double> y0(n);
+        for (int i=0;i<n;++i) { double c = u01();
+            y0[i] = c<0.08 ? 0.0 : c<0.16 ? (u01()<0.5?0.1:-0.1) : c<0.40 ? uni(-3,3) : (u01()<0.5?-1:1)*std::pow(10.0, uni(-8,9));
             if (kind==3 && std::fabs(y0[i])>3) y0[i] = uni(-3,3); }
-        const bool central = u01() < 0.5; const bool with = u01() < 0.5;
-        const double accIn = u01() < 0.2 ? -1.0 : std::pow(10.0, uni(-12,-3));
-        const double acc = accIn < 0 ? (double)SignificantReal : accIn;
-        const double fac = central ? std::cbrt(acc) : std::sqrt(acc);
-        const Differentiator::Method meth = central ? Differentiator::CentralDifference : Differentiator::ForwardDifference;
-        SF sf(F, accIn); GF gf(F, accIn); JF jf(F, accIn);
-        const Differentiator::Function& fn = io[0]=='S' ? (const Differentiator::Function&)sf : io[0]=='G' ? (const Differentiator::Function&)gf : (const Differentiator::Function&)jf;
-        std::vector<double> est;
-        try {
-            Differentiator dd(fn);
-            Vector y0v(F.n); for (int i=0;i<F.n;++i) y0v[i]=y0[i];
-            Vector fy0v(F.m); for (int j=0;j<F.m;++j) fy0v[j]=F.eval(j,&y0[0]);
-            if (io[1]=='S') { Real d = NaN; if (with) dd.calcDerivative(y0[0], fy0v[0], d, meth); else d = dd.calcDerivative(y0[0], meth); est.push_back(d); }
-            else if (io[1]=='G') { Vector g; if (with) dd.calcGradient(y0v, fy0v[0], g, meth); else g = dd.calcGradient(y0v, meth); for (int i=0;i<g.size();++i) est.push_back(g[i]); }
-            else { Matrix J; if (with) dd.calcJacobian(y0v, fy0v, J, meth); else J = dd.calcJacobian(y0v, meth); for (int i=0;i<J.ncol();++i) for (int j=0;j<J.nrow();++j) est.push_back(J(j,i)); }
-        } catch (const std::exception& e) {
-            ++nEval; char b[300]; std::snprintf(b, 300, "%s n=%d m=%d threw: %.150s", io.c_str(), F.n, F.m, e.what()); for (char* q=b; *q; ++q) if (*q=='\n') *q=' ';
-            fail(io=="JG" && F.n>1 ? "calcGradient-on-JacobianFunction-throws" : "throws", b); continue; }
-        if ((int)est.size() != F.n*F.m) { fail("shape", io + " wrong number of estimates"); continue; }
-        int k = 0;
-        for (int i=0;i<F.n;++i) for (int j=0;j<F.m;++j, ++k) {
-            const Term& T = F.t[j*F.n+i]; ++nEval;
-            const double h = fac*std::max(std::fabs(y0[i]), 0.1);
-            const double trunc = central ? h*h/6*sup3(T,y0[i],h) : h/2*sup2(T,y0[i],h);
-            const double round = 8*(F.n+6)*2.3e-16*F.emag(j,&y0[0],h)/h;
-            const double truth = g1(T, y0[i]);
-            const double bound = 1.0001*trunc + round + 1e-300;
-            if (!(std::fabs(est[k]-truth) <= bound)) {
-                char b[400]; std::snprintf(b, 400, "%s %s %s kind=%d n=%d m=%d acc=%.3g entry(param %d, fn %d) y0_i=%.17g estimate=%.17g true=%.17g |err|=%.3g bound=%.3g (trunc %.3g + round %.3g)",
-                    io.c_str(), central?"central":"forward", with?"fast":"slow", kind, F.n, F.m, accIn, i, j, y0[i], est[k], truth, std::fabs(est[k]-truth), bound, trunc, round);
-                bool lost = false;     // the known defect: the fast interface leaves the caller's variable untouched
-                if (io=="GS"||io=="JS") { try { Differentiator d2(fn); Real d = 12345.678; d2.calcDerivative(y0[0], F.eval(0,&y0[0]), d, meth); lost = (d == 12345.678); } catch (...) {} }
-                fail(lost ? "calcDerivative-on-vector-function-result-lost" : kind==0 ? "affine-not-exact" : (kind==1 && central) ? "quadratic-not-exact-central" : "error-bound", b); }
-        }
+        runCase(io, F, y0, kind, u01() < 0.5, u01() < 0.5, u01() < 0.2 ? -1.0 : std::pow(10.0, uni(-12,-3)), "random");
     }
     std::printf("DONE %ld\n", nEval);
     return 0;
